@@ -83,6 +83,12 @@ impl Chooser {
         pick
     }
 
+    /// the picks this execution replays before it answers 0 everywhere (added for watchdogs that
+    /// must name the case a stuck execution is running)
+    pub fn prefix(&self) -> &[u32] {
+        &self.prefix
+    }
+
     pub fn prefix_len(&self) -> usize {
         self.prefix.len()
     }
